@@ -189,11 +189,21 @@ func (fx *FX) freshConst(prefix, sort string) Term {
 
 // define introduces a named constant equal to t (keeps scripts readable and models informative).
 func (fx *FX) define(prefix string, t Term) Term {
-	if len(t.S) < 24 && !strings.HasPrefix(t.S, "(") {
+	if !strings.HasPrefix(t.S, "(") {
 		return t
 	}
 	n := fx.fresh(prefix)
 	fx.items = append(fx.items, item{kind: "decl", text: fmt.Sprintf("(define-fun %s () %s %s)", n, t.Sort, t.S)})
+	r := T(n, t.Sort)
+	r.Signed = t.Signed
+	return r
+}
+
+// nameConst introduces a declared constant equal to t (unlike define, the name survives macro
+// expansion, so it can be used inside quantifier patterns).
+func (fx *FX) nameConst(prefix string, t Term) Term {
+	n := fx.fresh(prefix)
+	fx.items = append(fx.items, item{kind: "decl", text: fmt.Sprintf("(declare-const %s %s)\n(assert (= %s %s))", n, t.Sort, n, t.S)})
 	r := T(n, t.Sort)
 	r.Signed = t.Signed
 	return r
